@@ -276,6 +276,10 @@ func schedMain(args []string) {
 
 func c17Spawn(req interface{}, out interface{}) error {
 	bin, _ := os.Executable()
+	return c17SpawnBin(bin, req, out)
+}
+
+func c17SpawnBin(bin string, req interface{}, out interface{}) error {
 	cmd := exec.Command(bin, "sched")
 	in, _ := json.Marshal(req)
 	cmd.Stdin = bytes.NewReader(in)
@@ -296,6 +300,18 @@ type c17Case struct {
 	Bound    int    `json:"preemption_bound"`
 }
 
+var c17Conformed int64
+
+// c17Deterministic: operations whose answer is a function of the input alone (no cyclic expansion, whose
+// output legitimately depends on map iteration order).
+func c17Deterministic(op c17Op) bool {
+	switch op.Kind {
+	case "Marshal", "Lookup", "GobEncode", "ResolveRefWithBase":
+		return true
+	}
+	return op.Variant == 2
+}
+
 var c17RefCache = map[string][]string{}
 var c17RefGlobals = map[string]string{}
 
@@ -314,6 +330,20 @@ func c17Refs(si int) ([]string, string) {
 		}
 		refs = append(refs, out["result"])
 		glob = out["globals"]
+		// conformance: where the answer does not depend on map iteration order, the un-instrumented build
+		// (fresh process, real sync package) must give the same sequential answer
+		if op := sc.Threads[t]; c17Deterministic(op) && !sc.Fresh {
+			if light := os.Getenv("VERIF_LIGHT_BIN"); light != "" {
+				var lo map[string]string
+				if err := c17SpawnBin(light, map[string]interface{}{"scenario": si, "alone": t}, &lo); err != nil {
+					panic(harnessBug{"sequential reference on the plain build: " + err.Error()})
+				}
+				if lo["result"] != out["result"] {
+					panic(harnessBug{fmt.Sprintf("instrumented build diverges from the plain build on the sequential answer of %s thread %d:\n instr: %s\n plain: %s", sc.Name, t, tail(out["result"], 300), tail(lo["result"], 300))})
+				}
+				c17Conformed++
+			}
+		}
 	}
 	c17RefCache[key] = refs
 	c17RefGlobals[key] = glob
@@ -509,6 +539,7 @@ func c17Run(c *Ctx) {
 			c.Note("schedule exploration of " + sc.Name + " stopped at the run deadline / execution cap")
 		}
 		c.Res.Transitions += ex.Points
+		c.Res.Validated = c17Conformed
 		c.Count("schedules_"+sc.Name, ex.Executions)
 		c.Count("max_scheduling_points_"+sc.Name, int64(ex.MaxPoints))
 		c.Count("max_distinct_result_vectors_"+sc.Name, int64(len(distinct)))
